@@ -45,11 +45,7 @@ var (
 
 func verifEvent(kind string, svc *service, arg int) {
 	if h := VerifEventHook; h != nil {
-		cid := ""
-		if svc.sess != nil && svc.sess.Cmsg != nil {
-			cid = string(svc.sess.Cmsg.ClientID())
-		}
-		h(kind, svc.id, svc.client, cid, arg)
+		h(kind, svc.id, svc.client, svc.clientID, arg)
 	}
 }
 
